@@ -172,10 +172,10 @@ fn state_service_child(tier: &str, only_hangups: bool) -> i32 {
     for smol in [false, true] {
         let name = if smol { "smol" } else { "tokio" };
         let plans = vec![
-            (format!("{name}/notified-state-service/<=2conns/4events"), StateScen { smol, max_conns: 2, max_events: 4, bursts: vec![B::Watch, B::Get, B::Sets(1), B::Sets(2), B::Sets(9), B::Sets(12), B::OnceGet], delay_polls: true, pend_writes: false }),
-            (format!("{name}/notified-state-service/<=3conns/{}events", if th { 5 } else { 4 }), StateScen { smol, max_conns: 3, max_events: if th { 5 } else { 4 }, bursts: vec![B::Watch, B::Sets(1), B::Sets(10), B::OnceGet], delay_polls: true, pend_writes: true }),
+            (format!("{name}/notified-state-service/<=2conns/4events"), StateScen { smol, max_conns: 2, max_events: 4, bursts: vec![B::Watch, B::Get, B::Sets(1), B::Sets(2), B::Sets(9), B::Sets(12), B::OnceGet], delay_polls: true, pend_writes: false, outside_sets: false }),
+            (format!("{name}/notified-state-service/<=3conns/{}events", if th { 5 } else { 4 }), StateScen { smol, max_conns: 3, max_events: if th { 5 } else { 4 }, bursts: vec![B::Watch, B::Sets(1), B::Sets(10), B::OnceGet], delay_polls: true, pend_writes: true, outside_sets: false }),
             // subscribers that hang up: the state's other subscribers, later subscriptions and the callers of Set are owed what they were owed before
-            (format!("{name}/notified-state-service/subscribers-that-hang-up/<=3conns/{}events", if th { 6 } else { 5 }), StateScen { smol, max_conns: 3, max_events: if th { 6 } else { 5 }, bursts: vec![B::Watch, B::Sets(1), B::Sets(2), B::Hangup], delay_polls: true, pend_writes: false }),
+            (format!("{name}/notified-state-service/subscribers-that-hang-up/<=3conns/{}events", if th { 6 } else { 5 }), StateScen { smol, max_conns: 3, max_events: if th { 6 } else { 5 }, bursts: vec![B::Watch, B::Sets(1), B::Sets(2), B::Hangup], delay_polls: true, pend_writes: false, outside_sets: false }),
         ];
         for (pname, h) in plans {
             if only_hangups && !h.bursts.contains(&B::Hangup) {
@@ -347,11 +347,16 @@ fn run_c20(tier: &str) -> i32 {
     {
         use statesvc::{StateScen, B};
         rep.require_goal("state-changes-after-one-of-several-subscribers-hung-up");
+        rep.require_goal("state-set-from-outside-while-a-write-is-pending");
         for smol in [false, true] {
-            let h = StateScen { smol, max_conns: 3, max_events: tier_pick(tier, 5, 6), bursts: vec![B::Watch, B::Sets(1), B::Sets(2), B::Hangup], delay_polls: true, pend_writes: false };
+            let h = StateScen { smol, max_conns: 3, max_events: tier_pick(tier, 5, 6), bursts: vec![B::Watch, B::Sets(1), B::Sets(2), B::Hangup], delay_polls: true, pend_writes: false, outside_sets: false };
             // the same clients without hang-ups, where a write may find the transport not ready once
-            let h2 = StateScen { smol, max_conns: 3, max_events: tier_pick(tier, 4, 5), bursts: vec![B::Watch, B::Sets(1), B::Sets(2), B::OnceGet], delay_polls: true, pend_writes: true };
+            let h2 = StateScen { smol, max_conns: 3, max_events: tier_pick(tier, 4, 5), bursts: vec![B::Watch, B::Sets(1), B::Sets(2), B::OnceGet], delay_polls: true, pend_writes: true, outside_sets: false };
             rep.add(explore(&format!("{}/behind-the-server/transport-not-ready-once", if smol { "smol" } else { "tokio" }), h2.to_json(), &h2, &Config { budget: 1, ..cfg.clone() }));
+            // ... and while the server waits for it, another task of the application sets the state
+            // through a clone of the service's State
+            let h3 = StateScen { smol, max_conns: 2, max_events: tier_pick(tier, 4, 5), bursts: vec![B::Watch, B::Sets(1), B::Sets(2)], delay_polls: false, pend_writes: true, outside_sets: true };
+            rep.add(explore(&format!("{}/behind-the-server/state-set-from-outside-while-a-write-is-pending", if smol { "smol" } else { "tokio" }), h3.to_json(), &h3, &Config { budget: 1, ..cfg.clone() }));
             let c = Config { budget: 1, ..cfg.clone() };
             rep.add(explore(&format!("{}/behind-the-server/subscribers-that-hang-up", if smol { "smol" } else { "tokio" }), h.to_json(), &h, &c));
         }
